@@ -152,4 +152,11 @@ inductive FanOp | submitEvery | awaitEveryCompleted | reraise | sequentialWhenOn
     `outcome` (raised iff some job failed) encode -/
 def fanOutModel : List FanOp := [.sequentialWhenOneThread, .submitEvery, .awaitEveryCompleted, .reraise]
 
+/-- how `RasterCompare.process` and `ParamStats.stats` add the block sums up: each worker computes and *returns* the sums of
+    its own block; the calling thread takes the completed futures one at a time and adds their results to the per-band
+    accumulators.  No accumulator is shared between threads, so the totals are sums of the same terms in some order -/
+inductive AccOp | workerReturnsOwnSums | submitEvery | awaitEveryCompleted | accumulateInCaller deriving Repr, DecidableEq
+
+def accumulateModel : List AccOp := [.workerReturnsOwnSums, .submitEvery, .awaitEveryCompleted, .accumulateInCaller]
+
 end Homonim
